@@ -1,47 +1,85 @@
-/-! Response callbacks of FeatureLocal (AddResponseCallback, processResponseMsgCallbacks) as events.
-    Feature 0 stands for node management. `nmReplySkips` = as written, node management handles replies itself and
-    never looks at the callbacks. -/
+/-! Response and result callbacks of FeatureLocal (AddResponseCallback, processResponseMsgCallbacks,
+    AddResultCallback, processResultCallbacks — spine/feature_local.go:107-157, 645-744) as events.
+
+    Every event is one critical section under `muxResponseCB`; an inbound result message is two of them
+    (`arrive … reply=false` = the response-callback section, `resultCbs` = the result-callback section), an inbound
+    reply is one (`arrive … reply=true`). All interleavings of registrations running concurrently with arrivals are
+    therefore all event lists.
+
+    Feature 0 stands for node management. `nmReplySkips = true` is the code as written: node management routes
+    replies to its own handlers (spine/nodemanagement.go:56-113) and never looks at the response callbacks;
+    `false` is the repair of DESIGN appendix C.
+
+    An invocation (`Fire`) records the registration, the arrival that caused it, and the data and originating remote
+    feature that arrival carried: this is what `api.ResponseMessage` hands to the callback. -/
 namespace Spine.CB
 
 structure Reg where
   id : Nat             -- registration
   feat : Nat
-  ctr : Nat
+  ctr : Nat            -- message counter (unused, 0, for result callbacks)
   cb : Nat             -- identity of the function (its code pointer)
+deriving DecidableEq, Repr
+
+structure Fire where
+  reg : Nat            -- registration that is invoked
+  arr : Nat            -- arrival that caused the invocation
+  data : Nat           -- the data of that arrival (ResponseMessage.Data)
+  src : Nat            -- the remote feature it came from (ResponseMessage.FeatureRemote)
 deriving DecidableEq, Repr
 
 structure St where
   next : Nat := 0
-  regs : List Reg := []
-  fired : List (Nat × Nat) := []     -- (registration, arrival) in invocation order
+  regs : List Reg := []          -- waiting response callbacks
+  resRegs : List Reg := []       -- result callbacks (never removed)
+  fired : List Fire := []        -- invocations of response callbacks, in invocation order
+  resFired : List Fire := []     -- invocations of result callbacks
 
 inductive Ev
+  /-- AddResponseCallback(ctr, cb) on feature `feat` -/
   | register (feat ctr cb : Nat)
-  | arrive (arrival feat ref : Nat) (reply : Bool) (accepted : Bool)   -- an accepted reply, or a result, referencing `ref`
+  /-- AddResultCallback(cb) on feature `feat` -/
+  | registerResult (feat cb : Nat)
+  /-- a reply (`reply = true`) or a result referencing `ref` reaches feature `feat`; `accepted` = it carries a
+      reference and the feature accepts it (reply: the data update succeeds; result: it has an error number) -/
+  | arrive (arrival feat ref : Nat) (reply : Bool) (accepted : Bool) (data src : Nat)
+  /-- the result-callback section of an accepted result that references a request -/
+  | resultCbs (arrival feat : Nat) (data src : Nat)
+
+def isDup (f c cb : Nat) (r : Reg) : Bool := r.feat = f && r.ctr = c && r.cb = cb
+def isFor (f ref : Nat) (r : Reg) : Bool := r.feat = f && r.ctr = ref
+def mkFire (a data src : Nat) (r : Reg) : Fire := ⟨r.id, a, data, src⟩
 
 def step (nmReplySkips : Bool) (s : St) : Ev → St
   | .register f c cb =>
-    if s.regs.any (fun r => r.feat = f && r.ctr = c && r.cb = cb) then s     -- "callback already set"
+    if s.regs.any (isDup f c cb) then s     -- "callback already set"
     else { s with next := s.next + 1, regs := s.regs ++ [⟨s.next, f, c, cb⟩] }
-  | .arrive a f ref reply accepted =>
+  | .registerResult f cb =>
+    { s with next := s.next + 1, resRegs := s.resRegs ++ [⟨s.next, f, 0, cb⟩] }
+  | .arrive a f ref reply accepted data src =>
     if !accepted || (nmReplySkips && f = 0 && reply) then s else
-    { s with fired := s.fired ++ ((s.regs.filter fun r => r.feat = f && r.ctr = ref).map fun r => (r.id, a)),
-             regs := s.regs.filter fun r => !(r.feat = f && r.ctr = ref) }
+    { s with fired := s.fired ++ (s.regs.filter (isFor f ref)).map (mkFire a data src),
+             regs := s.regs.filter fun r => !(isFor f ref r) }
+  | .resultCbs a f data src =>
+    { s with resFired := s.resFired ++ (s.resRegs.filter (·.feat = f)).map (mkFire a data src) }
 
 def run (b : Bool) (evs : List Ev) : St := evs.foldl (step b) {}
 
 /-- as written: a callback registered on node management for counter 1 is not invoked by the reply -/
-theorem nm_reply_witness : (run true [.register 0 1 7, .arrive 100 0 1 true true]).fired = [] := by decide
+theorem nm_reply_witness : (run true [.register 0 1 7, .arrive 100 0 1 true true 55 9]).fired = [] := by decide
 
-/-- repaired: it is -/
-example : (run false [.register 0 1 7, .arrive 100 0 1 true true]).fired = [(0, 100)] := by decide
+/-- repaired: it is, with the data and the origin of the reply -/
+example : (run false [.register 0 1 7, .arrive 100 0 1 true true 55 9]).fired = [⟨0, 100, 55, 9⟩] := by decide
+
+/-- as written and repaired: a *result* on node management does invoke it -/
+example : (run true [.register 0 1 7, .arrive 100 0 1 false true 55 9]).fired = [⟨0, 100, 55, 9⟩] := by decide
 
 structure Inv (s : St) : Prop where
   fresh : ∀ r ∈ s.regs, r.id < s.next
-  firedLt : ∀ x ∈ s.fired, x.1 < s.next
+  firedLt : ∀ x ∈ s.fired, x.reg < s.next
   regNodup : (s.regs.map (·.id)).Nodup
-  firedNodup : (s.fired.map (·.1)).Nodup
-  disjoint : ∀ r ∈ s.regs, r.id ∉ s.fired.map (·.1)
+  firedNodup : (s.fired.map (·.reg)).Nodup
+  disjoint : ∀ r ∈ s.regs, r.id ∉ s.fired.map (·.reg)
 
 theorem eq_of_nodup_map {α β} (f : α → β) : ∀ (l : List α), (l.map f).Nodup →
     ∀ x ∈ l, ∀ y ∈ l, f x = f y → x = y
@@ -54,7 +92,7 @@ theorem eq_of_nodup_map {α β} (f : α → β) : ∀ (l : List α), (l.map f).N
     · exact absurd hf (hnd.1 x hx')
     · exact eq_of_nodup_map f l hnd.2 x hx' y hy' hf
 
-theorem count_le_one_of_nodup : ∀ (l : List Nat) (a : Nat), l.Nodup → l.count a ≤ 1
+theorem count_le_one_of_nodup {α} [BEq α] [LawfulBEq α] : ∀ (l : List α) (a : α), l.Nodup → l.count a ≤ 1
   | [], _, _ => by simp
   | x :: xs, a, h => by
     have ⟨h1, h2⟩ := List.nodup_cons.mp h
@@ -66,6 +104,9 @@ theorem count_le_one_of_nodup : ∀ (l : List Nat) (a : Nat), l.Nodup → l.coun
     · have : (x == a) = false := by simpa using hx
       simp only [this, Bool.false_eq_true, if_false, Nat.add_zero]
       exact count_le_one_of_nodup xs a h2
+
+theorem map_reg_mkFire (a d src : Nat) (l : List Reg) : (l.map (mkFire a d src)).map (·.reg) = l.map (·.id) := by
+  rw [List.map_map]; apply List.map_congr_left; intro r _; rfl
 
 theorem step_inv (b : Bool) (s : St) (ev : Ev) (h : Inv s) : Inv (step b s ev) := by
   cases ev with
@@ -94,37 +135,35 @@ theorem step_inv (b : Bool) (s : St) (ev : Ev) (h : Inv s) : Inv (step b s ev) :
           obtain ⟨x, hx, hxe⟩ := List.mem_map.mp hm
           have := h.firedLt x hx
           simp only at hxe; omega
-  | arrive a f ref reply accepted =>
+  | registerResult f cb =>
+    exact ⟨fun r hr => Nat.lt_succ_of_lt (h.fresh r hr), fun x hx => Nat.lt_succ_of_lt (h.firedLt x hx),
+      h.regNodup, h.firedNodup, h.disjoint⟩
+  | resultCbs a f d src =>
+    exact ⟨h.fresh, h.firedLt, h.regNodup, h.firedNodup, h.disjoint⟩
+  | arrive a f ref reply accepted d src =>
     simp only [step]
     split
     · exact h
-    · have hsubF : (s.regs.filter fun r => decide (r.feat = f) && decide (r.ctr = ref)).Sublist s.regs := List.filter_sublist
-      have hsubK : (s.regs.filter fun r => !(decide (r.feat = f) && decide (r.ctr = ref))).Sublist s.regs := List.filter_sublist
+    · have hsubF : (s.regs.filter (isFor f ref)).Sublist s.regs := List.filter_sublist
+      have hsubK : (s.regs.filter fun r => !(isFor f ref r)).Sublist s.regs := List.filter_sublist
       refine ⟨fun r hr => h.fresh r (hsubK.subset hr), ?_, (hsubK.map _).nodup h.regNodup, ?_, ?_⟩
       · intro x hx
         rcases List.mem_append.mp hx with hx | hx
         · exact h.firedLt x hx
         · obtain ⟨r, hr, rfl⟩ := List.mem_map.mp hx
           exact h.fresh r (hsubF.subset hr)
-      · simp only [List.map_append, List.map_map]
+      · simp only [List.map_append, map_reg_mkFire]
         rw [List.nodup_append]
-        refine ⟨h.firedNodup, ?_, ?_⟩
-        · have : ((s.regs.filter fun r => decide (r.feat = f) && decide (r.ctr = ref)).map
-              ((fun x : Nat × Nat => x.1) ∘ fun r => (r.id, a))) =
-              (s.regs.filter fun r => decide (r.feat = f) && decide (r.ctr = ref)).map (·.id) := by
-            apply List.map_congr_left; intro r _; rfl
-          rw [this]
-          exact (hsubF.map _).nodup h.regNodup
-        · intro x hx y hy hxy
-          obtain ⟨r, hr, rfl⟩ := List.mem_map.mp hy
-          subst hxy
-          exact h.disjoint r (hsubF.subset hr) hx
+        refine ⟨h.firedNodup, (hsubF.map _).nodup h.regNodup, ?_⟩
+        intro x hx y hy hxy
+        obtain ⟨r, hr, rfl⟩ := List.mem_map.mp hy
+        subst hxy
+        exact h.disjoint r (hsubF.subset hr) hx
       · intro r hr
-        simp only [List.map_append, List.map_map, List.mem_append, not_or]
+        simp only [List.map_append, map_reg_mkFire, List.mem_append, not_or]
         refine ⟨h.disjoint r (hsubK.subset hr), ?_⟩
         intro hm
         obtain ⟨r', hr', hid⟩ := List.mem_map.mp hm
-        simp only [Function.comp] at hid
         -- r' was taken, r was kept, but they have the same registration id
         have hr'mem := hsubF.subset hr'
         have hrmem := hsubK.subset hr
@@ -134,16 +173,17 @@ theorem step_inv (b : Bool) (s : St) (ev : Ev) (h : Inv s) : Inv (step b s ev) :
         have h2 := (List.mem_filter.mp hr).2
         simp [h1] at h2
 
+theorem run_inv (b : Bool) (evs : List Ev) : Inv (run b evs) := by
+  unfold run
+  suffices ∀ s, Inv s → Inv (evs.foldl (step b) s) from
+    this {} ⟨by simp, by simp, by simp, by simp, by simp⟩
+  induction evs with
+  | nil => intro s h; exact h
+  | cons e es ih => intro s h; exact ih _ (step_inv b s e h)
+
 /-- C14: every registration is invoked at most once, whatever the order of registrations and arrivals -/
 theorem c14_at_most_once (b : Bool) (evs : List Ev) (r : Nat) :
-    ((run b evs).fired.map (·.1)).count r ≤ 1 := by
-  have hinv : Inv (run b evs) := by
-    unfold run
-    suffices ∀ s, Inv s → Inv (evs.foldl (step b) s) from
-      this {} ⟨by simp, by simp, by simp, by simp, by simp⟩
-    induction evs with
-    | nil => intro s h; exact h
-    | cons e es ih => intro s h; exact ih _ (step_inv b s e h)
-  exact count_le_one_of_nodup _ r hinv.firedNodup
+    ((run b evs).fired.map (·.reg)).count r ≤ 1 :=
+  count_le_one_of_nodup _ r (run_inv b evs).firedNodup
 
 end Spine.CB
